@@ -780,8 +780,13 @@ func (e *Enc) query(o *Obl, withModel bool) string {
 	}
 	b.WriteString("(set-logic ALL)\n")
 	if len(e.hdr) > 0 {
-		b.WriteString(e.hdr[0]) // base sorts
-		b.WriteString("\n")
+		for _, hl := range strings.Split(e.hdr[0], "\n") { // base sorts and axioms
+			if o.Cover && (strings.Contains(hl, "(forall ") || strings.Contains(hl, "(exists ")) {
+				continue
+			}
+			b.WriteString(hl)
+			b.WriteString("\n")
+		}
 	}
 	for _, h := range e.dtHdr {
 		b.WriteString(h)
